@@ -11,14 +11,41 @@ def wrapDownCF (p ls le : Nat) : Nat := if p < le then p else ls + (p - ls) % (l
 /-- closed form of `while p < b { p += le - ls }` for a valid region -/
 def wrapUpCF (p b ls le : Nat) : Nat := if b ≤ p then p else p + ((b - p + (le - ls) - 1) / (le - ls)) * (le - ls)
 
-theorem wrapDown_spec (ls le : Nat) (h : ls < le) :
-    ∀ (fuel p : Nat), p < fuel → wrapDown fuel p ls le = .ok (wrapDownCF p ls le) := by
+/-! ### the loops the code used to run (kept as the specification of the closed forms)
+
+  Until the repair `Transport` wrapped a position into the loop region by repeated addition /
+  subtraction; `seek_to(1e300)` made that loop run `usize::MAX / loop length` times on the audio thread.
+  The loops are modelled with fuel (`hang` = fuel exhausted or a zero step); the model proper
+  (`Model/Transport.lean`) now mirrors the modular arithmetic of the repaired code and has no fuel. -/
+
+/-- `while p >= le { p -= le - ls }` — `le - ls` underflows when `le < ls`, never exits when `le = ls`.
+    Each iteration lowers `p` by at least one, so `fuel = p + 1` always suffices. -/
+def wrapDownLoop : Nat → Nat → Nat → Nat → Except Fault Nat
+  | 0, p, _, le => if p < le then .ok p else .error .hang
+  | fuel + 1, p, ls, le =>
+    if p < le then .ok p
+    else if le < ls then .error .overflow
+    else if le = ls then .error .hang
+    else wrapDownLoop fuel (p - (le - ls)) ls le
+
+/-- `while p < b { p += le - ls }` (`b = ls + 1` in `decrement_position`, `b = ls` in `seek_to`);
+    `fuel = b + 1` always suffices. -/
+def wrapUpLoop : Nat → Nat → Nat → Nat → Nat → Except Fault Nat
+  | 0, p, b, _, _ => if b ≤ p then .ok p else .error .hang
+  | fuel + 1, p, b, ls, le =>
+    if b ≤ p then .ok p
+    else if le < ls then .error .overflow
+    else if le = ls then .error .hang
+    else wrapUpLoop fuel (p + (le - ls)) b ls le
+
+theorem wrapDownLoop_spec (ls le : Nat) (h : ls < le) :
+    ∀ (fuel p : Nat), p < fuel → wrapDownLoop fuel p ls le = .ok (wrapDownCF p ls le) := by
   intro fuel
   induction fuel with
   | zero => intro p hp; omega
   | succ fuel ih =>
     intro p hp
-    unfold wrapDown
+    unfold wrapDownLoop
     by_cases hlt : p < le
     · simp [hlt, wrapDownCF]
     · have h1 : ¬ le < ls := by omega
@@ -39,6 +66,51 @@ theorem wrapDown_spec (ls le : Nat) (h : ls < le) :
       · simp only [hlt', if_false]
         rw [hmod, heq]
 
+/-- the modular arithmetic of the repaired code, for a non-empty region -/
+theorem wrapDown_ok (p ls le : Nat) (h : ls < le) : wrapDown p ls le = .ok (wrapDownCF p ls le) := by
+  unfold wrapDown wrapDownCF
+  by_cases hlt : p < le
+  · simp [hlt]
+  · have h1 : ¬ le < ls := by omega
+    have h2 : ¬ le = ls := by omega
+    simp [hlt, h1, h2]
+
+/-- **closed form = loop wherever the loop terminates** (any region, any fuel): if the old loop returns
+    a position, the modular arithmetic returns the same one; for a non-empty region the loop does
+    return with fuel `p + 1` (`wrapDownLoop_spec`), and the closed form needs no fuel at all. -/
+theorem wrapDown_eq_loop : ∀ (fuel p ls le q : Nat), wrapDownLoop fuel p ls le = .ok q → wrapDown p ls le = .ok q := by
+  intro fuel
+  induction fuel with
+  | zero =>
+    intro p ls le q h
+    unfold wrapDownLoop at h
+    by_cases hlt : p < le
+    · simp only [hlt, if_true] at h; unfold wrapDown; simp only [hlt, if_true]; exact h
+    · simp [hlt] at h
+  | succ fuel ih =>
+    intro p ls le q h
+    unfold wrapDownLoop at h
+    by_cases hlt : p < le
+    · simp only [hlt, if_true] at h; unfold wrapDown; simp only [hlt, if_true]; exact h
+    · by_cases h1 : le < ls
+      · simp [hlt, h1] at h
+      · by_cases h2 : le = ls
+        · subst h2; simp [hlt] at h
+        · simp only [hlt, if_false, h1, h2] at h
+          have hv : ls < le := by omega
+          have hrec := ih _ _ _ _ h
+          rw [wrapDown_ok _ ls le hv] at hrec ⊢
+          rw [← hrec]
+          congr 1
+          -- one loop step does not change the closed form
+          have hs := wrapDownLoop_spec ls le hv (p + 2) p (by omega)
+          have hs' := wrapDownLoop_spec ls le hv (p + 1) (p - (le - ls)) (by omega)
+          have : wrapDownLoop (p + 2) p ls le = wrapDownLoop (p + 1) (p - (le - ls)) ls le := by
+            conv => lhs; unfold wrapDownLoop
+            simp only [hlt, if_false, h1, h2]
+          rw [hs, hs'] at this
+          injection this
+
 theorem wrapDownCF_range (p ls le : Nat) (h : ls < le) (hp : le ≤ p) :
     ls ≤ wrapDownCF p ls le ∧ wrapDownCF p ls le < le := by
   unfold wrapDownCF
@@ -56,18 +128,18 @@ theorem wrapDownCF_at_end (ls le : Nat) (_h : ls < le) : wrapDownCF le ls le = l
   unfold wrapDownCF
   simp [Nat.mod_self]
 
-theorem wrapUp_spec (ls le : Nat) (h : ls < le) :
-    ∀ (fuel p b : Nat), b < fuel + p → wrapUp fuel p b ls le = .ok (wrapUpCF p b ls le) := by
+theorem wrapUpLoop_spec (ls le : Nat) (h : ls < le) :
+    ∀ (fuel p b : Nat), b < fuel + p → wrapUpLoop fuel p b ls le = .ok (wrapUpCF p b ls le) := by
   intro fuel
   induction fuel with
   | zero =>
     intro p b hb
-    unfold wrapUp wrapUpCF
+    unfold wrapUpLoop wrapUpCF
     have : b ≤ p := by omega
     simp [this]
   | succ fuel ih =>
     intro p b hb
-    unfold wrapUp
+    unfold wrapUpLoop
     by_cases hle : b ≤ p
     · simp [hle, wrapUpCF]
     · have h1 : ¬ le < ls := by omega
@@ -87,6 +159,92 @@ theorem wrapUp_spec (ls le : Nat) (h : ls < le) :
         have : b - p + (le - ls) - 1 = (b - (p + (le - ls)) + (le - ls) - 1) + (le - ls) := by omega
         rw [this, Nat.add_div_right _ hd, Nat.succ_mul]
         omega
+
+/-- `decrement_position`'s modular arithmetic, for a non-empty region: the first `p + k·(le − ls)` above `ls` -/
+theorem wrapUpDec_ok (p ls le : Nat) (h : ls < le) : wrapUpDec p ls le = .ok (wrapUpCF p (ls + 1) ls le) := by
+  unfold wrapUpDec wrapUpCF
+  by_cases hlt : ls < p
+  · have : ls + 1 ≤ p := by omega
+    simp [hlt, this]
+  · have h1 : ¬ le < ls := by omega
+    have h2 : ¬ le = ls := by omega
+    have h3 : ¬ ls + 1 ≤ p := by omega
+    simp only [hlt, if_false, h1, h2, h3]
+    congr 1
+    have hd : 0 < le - ls := by omega
+    have e : ls + 1 - p + (le - ls) - 1 = (ls - p) + (le - ls) := by omega
+    rw [e, Nat.add_div_right _ hd, Nat.succ_mul]
+    have h4 := Nat.div_add_mod (ls - p) (le - ls)
+    have h5 : (le - ls) * ((ls - p) / (le - ls)) = (ls - p) / (le - ls) * (le - ls) := Nat.mul_comm _ _
+    have h6 := Nat.mod_lt (ls - p) hd
+    omega
+
+/-- `seek_to`'s backward modular arithmetic, for a non-empty region: the first `p + k·(le − ls)` at or above `ls` -/
+theorem wrapUpSeek_ok (p ls le : Nat) (h : ls < le) : wrapUpSeek p ls le = .ok (wrapUpCF p ls ls le) := by
+  unfold wrapUpSeek wrapUpCF
+  by_cases hlt : ls ≤ p
+  · simp [hlt]
+  · have h1 : ¬ le < ls := by omega
+    have h2 : ¬ le = ls := by omega
+    simp only [hlt, if_false, h1, h2]
+    congr 1
+    have hd : 0 < le - ls := by omega
+    have e : ls - p + (le - ls) - 1 = (ls - p - 1) + (le - ls) := by omega
+    rw [e, Nat.add_div_right _ hd, Nat.succ_mul]
+    have h4 := Nat.div_add_mod (ls - p - 1) (le - ls)
+    have h5 : (le - ls) * ((ls - p - 1) / (le - ls)) = (ls - p - 1) / (le - ls) * (le - ls) := Nat.mul_comm _ _
+    have h6 := Nat.mod_lt (ls - p - 1) hd
+    omega
+
+/-- the loop `while p < b { p += le - ls }` returns a position only for a non-empty region or when it has
+    nothing to do, and then it is `wrapUpCF` -/
+theorem wrapUpLoop_ok : ∀ (fuel p b ls le q : Nat), wrapUpLoop fuel p b ls le = .ok q →
+    (b ≤ p ∧ q = p) ∨ (ls < le ∧ q = wrapUpCF p b ls le) := by
+  intro fuel
+  induction fuel with
+  | zero =>
+    intro p b ls le q h
+    unfold wrapUpLoop at h
+    by_cases hle : b ≤ p
+    · simp only [hle, if_true, Except.ok.injEq] at h; exact .inl ⟨hle, h.symm⟩
+    · simp [hle] at h
+  | succ fuel ih =>
+    intro p b ls le q h
+    unfold wrapUpLoop at h
+    by_cases hle : b ≤ p
+    · simp only [hle, if_true, Except.ok.injEq] at h; exact .inl ⟨hle, h.symm⟩
+    · by_cases h1 : le < ls
+      · simp [hle, h1] at h
+      · by_cases h2 : le = ls
+        · subst h2; simp [hle] at h
+        · simp only [hle, if_false, h1, h2] at h
+          have hv : ls < le := by omega
+          refine .inr ⟨hv, ?_⟩
+          have hs := wrapUpLoop_spec ls le hv (b + 2) p b (by omega)
+          have hs' := wrapUpLoop_spec ls le hv (b + 1) (p + (le - ls)) b (by omega)
+          have e : wrapUpLoop (b + 2) p b ls le = wrapUpLoop (b + 1) (p + (le - ls)) b ls le := by
+            conv => lhs; unfold wrapUpLoop
+            simp only [hle, if_false, h1, h2]
+          rw [hs, hs'] at e
+          injection e with e
+          rcases ih _ _ _ _ _ h with ⟨hb, hq⟩ | ⟨_, hq⟩
+          · rw [e, hq]; simp [wrapUpCF, hb]
+          · rw [e, hq]
+
+/-- **closed form = loop wherever the loop terminates** — `decrement_position` (`b = ls + 1`) -/
+theorem wrapUpDec_eq_loop (fuel p ls le q : Nat) (h : wrapUpLoop fuel p (ls + 1) ls le = .ok q) :
+    wrapUpDec p ls le = .ok q := by
+  rcases wrapUpLoop_ok _ _ _ _ _ _ h with ⟨hb, hq⟩ | ⟨hv, hq⟩
+  · unfold wrapUpDec; have : ls < p := by omega
+    simp [this, hq]
+  · rw [wrapUpDec_ok p ls le hv, hq]
+
+/-- **closed form = loop wherever the loop terminates** — `seek_to` backwards (`b = ls`) -/
+theorem wrapUpSeek_eq_loop (fuel p ls le q : Nat) (h : wrapUpLoop fuel p ls ls le = .ok q) :
+    wrapUpSeek p ls le = .ok q := by
+  rcases wrapUpLoop_ok _ _ _ _ _ _ h with ⟨hb, hq⟩ | ⟨hv, hq⟩
+  · unfold wrapUpSeek; simp [hb, hq]
+  · rw [wrapUpSeek_ok p ls le hv, hq]
 
 /-- the wrapped-up position is the first `p + k·(le − ls)` that reaches `b` -/
 theorem wrapUpCF_range (p b ls le : Nat) (h : ls < le) (hp : p < b) :
@@ -122,7 +280,7 @@ theorem increment_loop (t : Transport) (n ls le : Nat) (hp : t.playing = true)
                                  playing := decide (wrapDownCF (t.position + 1) ls le < n) } := by
   unfold increment incWrap
   simp only [hp, hl, Bool.not_true, Bool.false_eq_true, if_false]
-  rw [wrapDown_spec ls le h _ _ (Nat.lt_succ_self _)]
+  rw [wrapDown_ok _ ls le h]
 
 theorem increment_stopped (t : Transport) (n : Nat) (hp : t.playing = false) : t.increment n = .ok t := by
   unfold increment; simp [hp]
@@ -144,7 +302,7 @@ theorem decrement_loop (t : Transport) (ls le : Nat) (hp : t.playing = true)
     t.decrement = .ok { t with position := wrapUpCF t.position (ls + 1) ls le - 1 } := by
   unfold decrement decWrap
   simp only [hp, hl, Bool.not_true, Bool.false_eq_true, if_false]
-  rw [wrapUp_spec ls le h _ _ _ (by omega)]
+  rw [wrapUpDec_ok _ ls le h]
   have hpos : wrapUpCF t.position (ls + 1) ls le ≠ 0 := by
     unfold wrapUpCF
     by_cases hb : ls + 1 ≤ t.position
@@ -168,9 +326,9 @@ theorem seekTo_loop (t : Transport) (p n ls le : Nat) (hl : t.loopRegion = some 
   simp only [hl]
   by_cases hlt : t.position < p
   · simp only [hlt, if_true]
-    rw [wrapDown_spec ls le h _ _ (Nat.lt_succ_self _)]
+    rw [wrapDown_ok _ ls le h]
   · simp only [hlt, if_false]
-    rw [wrapUp_spec ls le h _ _ _ (by omega)]
+    rw [wrapUpSeek_ok _ ls le h]
 
 theorem seekTo_playing (t t' : Transport) (p n : Nat) (h : t.seekTo p n = .ok t') :
     t'.playing = (if n ≤ t'.position then false else t.playing) ∧ t'.loopRegion = t.loopRegion := by
